@@ -42,7 +42,9 @@ type RunnerManager struct {
 // NewRunnerManager creates a new RunnerManager.
 func NewRunnerManager(runners ...Runner) *RunnerManager {
 	return &RunnerManager{
-		runners: runners,
+		// Keep a copy: the list grows with Add, and appending to the caller's slice
+		// (`NewRunnerManager(all[:2]...)`) would overwrite what the caller keeps behind it.
+		runners: append([]Runner(nil), runners...),
 	}
 }
 
